@@ -692,6 +692,13 @@ class TermBuilder:
                         st = sc._index_loop_collection(l, h)
                     if st is not None:
                         r = ("enum_idx", st) if init[1] == 0 else simplify(("op", "Add", (("enum_idx", st), init)))
+                elif init[1] == 0 and upd[0] == "op" and upd[1] == "Add" and len(upd[2]) == 2 and lv in upd[2] and all(fn.dominates(ds[0][0], b) for b in back):
+                    # a running offset: `off = 0; for .. { .. off += stride }` with a loop-invariant stride is index * stride
+                    stride = [y for y in upd[2] if y != lv]
+                    if len(stride) == 1 and not any(z[0] in ("loopvar", "elem", "enum_idx", "clobber", "unknown", "rec") for z in subterms(stride[0])):
+                        st = sc._for_loop_stream(h)
+                        if st is not None:
+                            r = simplify(("op", "Mul", (("enum_idx", st), stride[0])))
             _closure_hook[0] = self._apply_closure_hook
         self._memo[key] = r
         return r
@@ -1285,12 +1292,23 @@ class TermBuilder:
     def _apply_field_stores(self, callee, argi, before, args):
         """`let mut s = S { a, b }; s.reset_b();` — when the helper only performs unconditional whole-field stores through its
         `&mut` parameter (no loops, no other calls taking it), the struct afterwards is the aggregate with those fields replaced"""
-        if before[0] != "adt" or self.prog is None or self.depth >= 3:
+        if self.prog is None or self.depth >= 3:
             return None
         g = self.prog.fn(callee)
         if g is None or g.loop_heads() or len(g.blocks) > 12:
             return None
         p = argi + 1
+        if before[0] != "adt":
+            # a struct value that is not a literal (a loop-carried `current`): spell it out field by field, so that
+            # `current.absorb(&next)` (in-place `count += ..; sum += ..`) becomes the aggregate of the updated fields
+            tyj = (g.locals[p].get("tyj") or {})
+            tyj = tyj.get("ty") if tyj.get("k") == "ref" else tyj
+            a_ = self.prog.adts.get((tyj or {}).get("def")) if (tyj or {}).get("k") == "adt" and (tyj or {}).get("local") else None
+            if a_ is None or len(a_.get("variants", [])) != 1 or a_.get("kind") != "Struct" or before[0] in ("unknown", "clobber", "rec"):
+                return None
+            before = ("adt", a_["key"], a_["variants"][0]["name"], tuple((fl["name"], simplify(("field", before, fl["name"]))) for fl in a_["variants"][0]["fields"]))
+            args = list(args)
+            args[argi] = before
         nb = [(bi, blk) for bi, blk in enumerate(g.blocks) if not blk.cleanup]
         if any(blk.term.k not in ("return", "goto", "drop", "assert", "call") for _, blk in nb):
             return None
@@ -1580,6 +1598,10 @@ class TermBuilder:
             if args[0][0] == "loopvar":
                 args = [self.loop_init(args[0][1], args[0][2])]
             return ("adt", "std::option::Option", "Some", (("0", elem_of(args[0])),))
+        if decl in ("[T]::split_first", "core::slice::<impl [T]>::split_first", "std::slice::<impl [T]>::split_first") and len(args) == 1:
+            # Some((&v[0], &v[1..])) for a non-empty slice (emptiness is the None arm of the caller's match)
+            rest_ = ("index", args[0], ("adt", "std::ops::RangeFrom", "RangeFrom", (("start", const(1)),)))
+            return ("adt", "std::option::Option", "Some", (("0", ("tuple", (("index", args[0], const(0)), rest_))),))
         if decl == "std::collections::BTreeSet::first" and len(args) == 1:
             return ("adt", "std::option::Option", "Some", (("0", elem_of(args[0])),))     # the smallest element == iter().next()
         # first / last element of a slice
